@@ -166,13 +166,13 @@ def who_may_call(ctx, rep, cfgs=None):
                     rep.ok('dep:%s call at %s' % (t[1], i.loc))
                 elif t[0] == 'indirect':
                     ni += 1
-                    tg = pts.of(f, t[1])
-                    ok = bool(tg) and all(o[0] == 'func' and o[1] in P.defined for o in tg)
+                    tg = [o for o in pts.of(f, t[1]) if o[0] == 'func']       # (an aggregate passed by value is field-insensitive: data objects ignored)
+                    ok = bool(tg) and all(o[1] in P.defined for o in tg)
                     rep.check(ok, 'indirect call at %s has only library-defined targets' % i.loc, i.loc, f.name,
                               detail=sorted(map(str, tg)), sample={'site': i.loc, 'targets': sorted(o[1] for o in tg)})
                 elif t[0] == 'direct' and t[1] == 'bsearch':
-                    tg = pts.of(f, i.ops[4])
-                    ok = bool(tg) and all(o[0] == 'func' and o[1] in P.defined for o in tg)
+                    tg = [o for o in pts.of(f, i.ops[4]) if o[0] == 'func']
+                    ok = bool(tg) and all(o[1] in P.defined for o in tg)
                     rep.check(ok, 'bsearch comparator at %s has only library-defined targets' % i.loc, i.loc, f.name)
         rep.info.setdefault('dep_call_sites', {})[cfg] = counts
         rep.instances(nd, 10, 'dependency call sites')
@@ -202,6 +202,7 @@ def who_may_call(ctx, rep, cfgs=None):
                         for o in pts.of(f, i.ops[1]):
                             if o[0] == 'global': ok = ok and P.globals[o[1]]['ty'] == '%struct.polyseed_dependency'
                             elif o[0] == 'alloca': ok = ok and P.defined[o[1]].insts[o[2]].d['alloc_ty'] == '%struct.polyseed_dependency'
+                            elif o[0] == 'byval': ok = ok and P.defined[o[1]].params[o[2]].get('byval_ty') == '%struct.polyseed_dependency'
                             else: ok = False
                         rep.check(ok, 'address of external %s is stored only into the dependency table (or a local copy of that struct) by setup-only code' % ext[0][1],
                                   i.loc, '%s stores &%s' % (f.name, ext[0][1]))
